@@ -1,14 +1,18 @@
 """C03 registry entry (loaded by bin/registry.py)."""
+import hashlib as _hl, os as _os
+_D = _os.path.dirname(_os.path.abspath(__file__))
+# the build cache keys on the listed sources and on this dict only: fold the headers in so that editing them rebuilds the targets
+_HDR = _hl.sha256(b''.join(open(_os.path.join(_D, f), 'rb').read() for f in ('model.h', 'mint.h'))).hexdigest()[:10]
 WRAPS = ['psGetEntropy', 'psGetTime', 'psDiffMsecs', 'psCompareTime', 'time']
 _SRC = ['props/C03/x509_path.cc', 'props/C03/mint.cc', 'harness/wraps.c']
 _ENV = {'VERIF_DIR': '/verif'}
 
 
-def _t(name, kind, quick, thorough):
+def _t(name, kind, quick, thorough, tsecs):
+    # cost is ~30 ms per case (ASan build: up to 9 certificates parsed, up to 5 signature verifications)
     d = dict(name=name, src=_SRC, libs=['-lcrypto'], wraps=WRAPS, env=_ENV,
-             quick=dict(cases=quick, secs=75), thorough=dict(cases=thorough, secs=800))
-    if kind is not None:
-        d['defs'] = ['C03_KIND=%d' % kind]
+             quick=dict(cases=quick, secs=70), thorough=dict(cases=thorough, secs=tsecs))
+    d['defs'] = ['C03_HDR_' + _HDR] + (['C03_KIND=%d' % kind] if kind is not None else [])
     return d
 
 
@@ -32,9 +36,9 @@ PROP = dict(
     assumptions=['OpenSSL 3.0 libcrypto encodes and signs certificates/CRLs correctly',
                  'time() is the only wall-clock source of the certificate date check (interposed by ld --wrap)'],
     targets=[
-        _t('c03_x509_path', None, 6400, 260000),
-        _t('c03_copied_sig', 1, 800, 20000),
-        _t('c03_soft_defect', 2, 800, 20000),
-        _t('c03_crl', 3, 800, 30000),
+        _t('c03_x509_path', None, 5600, 220000, 540),
+        _t('c03_copied_sig', 1, 640, 16000, 80),
+        _t('c03_soft_defect', 2, 800, 16000, 80),
+        _t('c03_crl', 3, 800, 24000, 100),
     ],
 )
